@@ -42,10 +42,17 @@ static long long nom(const void* p) {
 // ------------------------------------------------------------------ event log
 static std::mutex g_mu;
 static std::vector<std::string> g_events;   // events of the current op (X cases)
-static bool g_bad_free = false;             // page/upstream returned twice, unknown, or with wrong size/alignment
+static bool g_bad_free = false, g_bad_upfree = false;             // page/upstream returned twice, unknown, or with wrong size/alignment
 static bool g_wrong_upstream = false;       // a block of the recording upstream reached operator delete
+static std::map<std::string, std::string> g_details;   // monitor name -> first failure text
 static std::string g_detail;
-static void detail(const std::string& s) { if (g_detail.empty()) g_detail = s; }
+static void detail(const std::string& key, const std::string& s) { if (!g_details.count(key)) g_details[key] = s; }
+static void detail(const std::string& s) { detail("pages", s); }
+static void finish_detail() {
+  g_detail.clear();
+  for (auto& kv : g_details) g_detail += (g_detail.empty() ? "" : " // ") + ("[" + kv.first + "] " + kv.second);
+  for (auto& c : g_detail) if (c == '|' || c == ';' || c == '\n') c = '/';
+}
 static void ev(const std::string& s) { g_events.push_back(s); }
 static std::string num(long long v) { return std::to_string(v); }
 
@@ -55,7 +62,7 @@ static void arena_delete(void* p, size_t bytes, size_t align) {
   std::lock_guard<std::mutex> l(g_mu);
   g_wrong_upstream = true;
   ev("uf0:" + num(nom(p)) + ":" + num((long long)bytes) + ":" + num((long long)align));
-  detail("block " + num(nom(p)) + " obtained from the configured upstream was deallocated through the default new_delete_resource");
+  detail("up", "block " + num(nom(p)) + " obtained from the configured upstream was deallocated through the default new_delete_resource");
 }
 void* operator new(size_t n) { void* p = malloc(n ? n : 1); if (!p) abort(); return p; }
 void* operator new[](size_t n) { return operator new(n); }
@@ -158,13 +165,13 @@ struct RecUp : public std::pmr::memory_resource {
     if (!threadsafe) ev("uf1:" + num(nom(p)) + ":" + num((long long)bytes) + ":" + num((long long)align));
     auto it = live.find(p);
     if (it == live.end()) {
-      g_bad_free = true;
-      detail("block " + num(nom(p)) + " returned upstream but not lent out (double or wild free)");
+      g_bad_upfree = true;
+      detail("up", "block " + num(nom(p)) + " returned upstream but not lent out (double or wild free)");
       return;
     }
     if (it->second.bytes != bytes || it->second.align != align) {
-      g_bad_free = true;
-      detail("oversize block obtained with (bytes=" + num((long long)it->second.bytes) + ", alignment=" +
+      g_bad_upfree = true;
+      detail("up", "oversize block obtained with (bytes=" + num((long long)it->second.bytes) + ", alignment=" +
              num((long long)it->second.align) + ") returned upstream with (bytes=" + num((long long)bytes) +
              ", alignment=" + num((long long)align) + ")");
     }
@@ -253,7 +260,7 @@ static void run_exclusive(const std::string& id, std::istringstream& in) {
   in >> P >> shuffle;
   g_pages.reset(); g_up.reset();
   g_pages.psize = P; g_pages.shuffle = shuffle; g_pages.threadsafe = false; g_up.threadsafe = false;
-  g_bad_free = false; g_wrong_upstream = false; g_detail.clear(); g_dtor_calls.clear();
+  g_bad_free = false; g_bad_upfree = false; g_wrong_upstream = false; g_details.clear(); g_detail.clear(); g_dtor_calls.clear();
   Mon m;
   Excl* cur = new Excl;
   cur->set_page_allocator(g_pages);
@@ -275,11 +282,11 @@ static void run_exclusive(const std::string& id, std::istringstream& in) {
       char* p = (char*)cur->allocate(bytes, align);
       res = nom(p);
       Block b {p, bytes, align, nblocks++};
-      if (align && ((uintptr_t)p % align) != 0) { m.align = false; detail("allocate(" + f[1] + "," + f[2] + ") returned " + num(res) + " which is not aligned"); }
-      if (!owned_by(b)) { m.owned = false; detail("allocate(" + f[1] + "," + f[2] + ") returned " + num(res) + " which is not inside a page or oversize block the resource holds"); }
+      if (align && ((uintptr_t)p % align) != 0) { m.align = false; detail("align", "allocate(" + f[1] + "," + f[2] + ") returned " + num(res) + " which is not aligned"); }
+      if (!owned_by(b)) { m.owned = false; detail("owned", "allocate(" + f[1] + "," + f[2] + ") returned " + num(res) + " which is not inside a page or oversize block the resource holds"); }
       for (auto& o : live) if (overlap(o.p, o.bytes, b.p, b.bytes)) {
         m.disjoint = false;
-        detail("allocate(" + f[1] + "," + f[2] + ") = " + num(res) + " overlaps live block " + num(nom(o.p)) + "+" + num((long long)o.bytes));
+        detail("disjoint", "allocate(" + f[1] + "," + f[2] + ") = " + num(res) + " overlaps live block " + num(nom(o.p)) + "+" + num((long long)o.bytes));
       }
       if (owned_by(b)) fill(b);
       live.push_back(b); ever.push_back(b);
@@ -300,24 +307,24 @@ static void run_exclusive(const std::string& id, std::istringstream& in) {
       size_t before_events = g_events.size();
       std::set<char*> pages_before;
       for (auto& kv : g_pages.live) pages_before.insert(kv.first);
-      for (auto& b : live) if (owned_by(b) && !intact(b)) { m.stable = false; detail("block " + num(nom(b.p)) + "+" + num((long long)b.bytes) + " lost its contents before release"); }
+      for (auto& b : live) if (owned_by(b) && !intact(b)) { m.stable = false; detail("stable", "block " + num(nom(b.p)) + "+" + num((long long)b.bytes) + " lost its contents before release"); }
       cur->release();
       released = true;
       // destructors: each exactly once, LIFO, all before the first page / upstream free
       std::vector<std::pair<long long, int>> want(registered.rbegin(), registered.rend());
       if (g_dtor_calls != want) {
         m.dtor = false;
-        detail("release ran " + num((long long)g_dtor_calls.size()) + " destructor calls for " + num((long long)want.size()) + " registrations (or not in reverse order)");
+        detail("dtor", "release ran " + num((long long)g_dtor_calls.size()) + " destructor calls for " + num((long long)want.size()) + " registrations (or not in reverse order)");
       }
       bool seen_free = false;
       for (size_t i = before_events; i < g_events.size(); ++i) {
         if (g_events[i].compare(0, 2, "pf") == 0 || g_events[i].compare(0, 2, "uf") == 0) seen_free = true;
-        if (g_events[i].compare(0, 2, "dt") == 0 && seen_free) { m.dtor = false; detail("a destructor ran after memory was already returned"); }
+        if (g_events[i].compare(0, 2, "dt") == 0 && seen_free) { m.dtor = false; detail("dtor", "a destructor ran after memory was already returned"); }
       }
-      if (!g_pages.live.empty()) { m.pages = false; detail(num((long long)g_pages.live.size()) + " page(s) not returned to the page allocator by release, e.g. " + num(nom(g_pages.live.begin()->first))); }
-      if (!g_up.live.empty()) { m.up = false; detail(num((long long)g_up.live.size()) + " oversize block(s) not returned upstream by release, e.g. " + num(nom(g_up.live.begin()->first))); }
-      if (cur->space_used() != 0 || cur->space_allocated() != 0) { m.zero = false; detail("accounting not zero after release"); }
-      for (auto& b : live) if (b.bytes && in_arena(b.p) && cur->contains(b.p)) { m.zero = false; detail("contains() still true for a released block"); }
+      if (!g_pages.live.empty()) { m.pages = false; detail("pages", num((long long)g_pages.live.size()) + " page(s) not returned to the page allocator by release, e.g. " + num(nom(g_pages.live.begin()->first))); }
+      if (!g_up.live.empty()) { m.up = false; detail("up", num((long long)g_up.live.size()) + " oversize block(s) not returned upstream by release, e.g. " + num(nom(g_up.live.begin()->first))); }
+      if (cur->space_used() != 0 || cur->space_allocated() != 0) { m.zero = false; detail("zero", "accounting not zero after release"); }
+      for (auto& b : live) if (b.bytes && in_arena(b.p) && cur->contains(b.p)) { m.zero = false; detail("zero", "contains() still true for a released block"); }
       g_pages.live.clear(); g_up.live.clear();   // leaked regions must not mask later ownership checks
       live.clear(); registered.clear();
     } else if (f[0] == "M") {
@@ -333,28 +340,29 @@ static void run_exclusive(const std::string& id, std::istringstream& in) {
       cur = t;
     }
     if (g_bad_free) { m.pages = false; }
+    if (g_bad_upfree) { m.up = false; }
     if (g_wrong_upstream) { m.up = false; }
     // every live block: contents, bookkeeping overlap, contains
     std::vector<std::pair<char*, size_t>> books;
     bool walked = walk_books(*cur, books);
-    if (!walked) { m.book = false; detail("bookkeeping chain leaves the managed memory"); }
+    if (!walked) { m.book = false; detail("book", "bookkeeping chain leaves the managed memory"); }
     for (auto& bk : books) {
       Block bb {bk.first, bk.second, 8, -1};
-      if (!owned_by(bb)) { m.book = false; detail("bookkeeping array " + num(nom(bk.first)) + " not inside memory the resource holds"); }
+      if (!owned_by(bb)) { m.book = false; detail("book", "bookkeeping array " + num(nom(bk.first)) + " not inside memory the resource holds"); }
     }
     if (!released) {
       for (auto& b : live) {
         if (!owned_by(b)) continue;
-        if (!intact(b)) { m.stable = false; detail("block " + num(nom(b.p)) + "+" + num((long long)b.bytes) + " lost its contents after op " + op); }
+        if (!intact(b)) { m.stable = false; detail("stable", "block " + num(nom(b.p)) + "+" + num((long long)b.bytes) + " lost its contents after op " + op); }
         for (auto& bk : books) if (overlap(b.p, b.bytes, bk.first, bk.second)) {
           m.book = false;
-          detail("block " + num(nom(b.p)) + "+" + num((long long)b.bytes) + " overlaps bookkeeping array at " + num(nom(bk.first)) + " after op " + op);
+          detail("book", "block " + num(nom(b.p)) + "+" + num((long long)b.bytes) + " overlaps bookkeeping array at " + num(nom(bk.first)) + " after op " + op);
         }
-        if (b.bytes && (!cur->contains(b.p) || !cur->contains(b.p + b.bytes - 1))) { m.contains = false; detail("contains() false for live block " + num(nom(b.p))); }
+        if (b.bytes && (!cur->contains(b.p) || !cur->contains(b.p + b.bytes - 1))) { m.contains = false; detail("contains", "contains() false for live block " + num(nom(b.p))); }
       }
       for (size_t i = 0; i < books.size(); ++i)
         for (size_t j = i + 1; j < books.size(); ++j)
-          if (overlap(books[i].first, books[i].second, books[j].first, books[j].second)) { m.book = false; detail("two bookkeeping arrays overlap"); }
+          if (overlap(books[i].first, books[i].second, books[j].first, books[j].second)) { m.book = false; detail("book", "two bookkeeping arrays overlap"); }
     }
     std::string evs;
     for (auto& e : g_events) evs += (evs.empty() ? "" : ",") + e;
@@ -372,10 +380,11 @@ static void run_exclusive(const std::string& id, std::istringstream& in) {
   g_events.clear();
   bool clean = g_pages.live.empty() && g_up.live.empty();
   delete cur;
-  if (clean && !g_events.empty()) { m.reuse = false; detail("destroying a released resource touched the allocators again: " + g_events[0]); }
+  if (clean && !g_events.empty()) { m.reuse = false; detail("reuse", "destroying a released resource touched the allocators again: " + g_events[0]); }
   if (g_bad_free) m.pages = false;
+  if (g_bad_upfree) m.up = false;
   if (g_wrong_upstream) m.up = false;
-  for (auto& c : g_detail) if (c == '|' || c == ';' || c == '\n') c = '/';
+  finish_detail();
   printf("%s | mon_align=%d mon_owned=%d mon_disjoint=%d mon_book=%d mon_stable=%d mon_dtor=%d mon_pages=%d mon_up=%d mon_zero=%d mon_contains=%d mon_reuse=%d detail=%s\n",
          out.c_str(), m.align, m.owned, m.disjoint, m.book, m.stable, m.dtor, m.pages, m.up, m.zero, m.contains, m.reuse, g_detail.c_str());
 }
@@ -396,7 +405,7 @@ static void run_shared(const std::string& id, const char* kind, std::istringstre
   in >> P >> T >> N >> seed;
   g_pages.reset(); g_up.reset();
   g_pages.psize = P; g_pages.shuffle = seed % 5; g_pages.threadsafe = true; g_up.threadsafe = true;
-  g_bad_free = false; g_wrong_upstream = false; g_detail.clear(); g_events.clear();
+  g_bad_free = false; g_bad_upfree = false; g_wrong_upstream = false; g_details.clear(); g_detail.clear(); g_events.clear();
   Mon m;
   size_t total_blocks = 0, rounds = 2;
   {
@@ -448,29 +457,30 @@ static void run_shared(const std::string& id, const char* kind, std::istringstre
       for (auto& v : per) for (auto& b : v) all.push_back(b);
       total_blocks += all.size();
       for (auto& b : all) {
-        if (b.align && ((uintptr_t)b.p % b.align) != 0) { m.align = false; detail("concurrent allocate returned a misaligned block"); }
-        if (!owned_by(b)) { m.owned = false; detail("concurrent allocate returned block " + num(nom(b.p)) + " outside memory the resource holds"); }
-        else if (!intact(b)) { m.stable = false; detail("block " + num(nom(b.p)) + "+" + num((long long)b.bytes) + " lost its contents while other threads allocated"); }
-        if (b.bytes && !res.contains(b.p)) { m.contains = false; detail("contains() false for a live block of the shared resource"); }
+        if (b.align && ((uintptr_t)b.p % b.align) != 0) { m.align = false; detail("align", "concurrent allocate returned a misaligned block"); }
+        if (!owned_by(b)) { m.owned = false; detail("owned", "concurrent allocate returned block " + num(nom(b.p)) + " outside memory the resource holds"); }
+        else if (!intact(b)) { m.stable = false; detail("stable", "block " + num(nom(b.p)) + "+" + num((long long)b.bytes) + " lost its contents while other threads allocated"); }
+        if (b.bytes && !res.contains(b.p)) { m.contains = false; detail("contains", "contains() false for a live block of the shared resource"); }
       }
       std::vector<Block> sorted;
       for (auto& b : all) if (b.bytes) sorted.push_back(b);
       std::sort(sorted.begin(), sorted.end(), [](const Block& a, const Block& b) { return a.p < b.p; });
       for (size_t i = 1; i < sorted.size(); ++i)
-        if (sorted[i - 1].p + sorted[i - 1].bytes > sorted[i].p) { m.disjoint = false; detail("blocks given to concurrent threads overlap: " + num(nom(sorted[i - 1].p)) + "+" + num((long long)sorted[i - 1].bytes) + " and " + num(nom(sorted[i].p))); }
+        if (sorted[i - 1].p + sorted[i - 1].bytes > sorted[i].p) { m.disjoint = false; detail("disjoint", "blocks given to concurrent threads overlap: " + num(nom(sorted[i - 1].p)) + "+" + num((long long)sorted[i - 1].bytes) + " and " + num(nom(sorted[i].p))); }
       res.release();
-      for (size_t i = 0; i < counters.size(); ++i) if (counters[i].load() > 1) { m.dtor = false; detail("a destructor ran twice"); }
-      if (g_dtor_count.load() != registered.load()) { m.dtor = false; detail("release of the shared resource ran " + num(g_dtor_count.load()) + " destructors for " + num(registered.load()) + " registrations"); }
-      if (!g_pages.live.empty()) { m.pages = false; detail(num((long long)g_pages.live.size()) + " page(s) not returned by release of the shared resource"); }
-      if (!g_up.live.empty()) { m.up = false; detail(num((long long)g_up.live.size()) + " oversize block(s) not returned by release of the shared resource"); }
-      if (res.space_used() != 0 || res.space_allocated() != 0) { m.zero = false; detail("shared accounting not zero after release"); }
+      for (size_t i = 0; i < counters.size(); ++i) if (counters[i].load() > 1) { m.dtor = false; detail("dtor", "a destructor ran twice"); }
+      if (g_dtor_count.load() != registered.load()) { m.dtor = false; detail("dtor", "release of the shared resource ran " + num(g_dtor_count.load()) + " destructors for " + num(registered.load()) + " registrations"); }
+      if (!g_pages.live.empty()) { m.pages = false; detail("pages", num((long long)g_pages.live.size()) + " page(s) not returned by release of the shared resource"); }
+      if (!g_up.live.empty()) { m.up = false; detail("up", num((long long)g_up.live.size()) + " oversize block(s) not returned by release of the shared resource"); }
+      if (res.space_used() != 0 || res.space_allocated() != 0) { m.zero = false; detail("zero", "shared accounting not zero after release"); }
       g_pages.live.clear(); g_up.live.clear();
     }
     g_events.clear();
   }
   if (g_bad_free) m.pages = false;
+  if (g_bad_upfree) m.up = false;
   if (g_wrong_upstream) m.up = false;
-  for (auto& c : g_detail) if (c == '|' || c == ';' || c == '\n') c = '/';
+  finish_detail();
   printf("%s %s P=%zu T=%zu N=%zu blocks=%zu pages=%zu oversize=%zu | mon_align=%d mon_owned=%d mon_disjoint=%d mon_book=%d mon_stable=%d mon_dtor=%d mon_pages=%d mon_up=%d mon_zero=%d mon_contains=%d mon_reuse=%d detail=%s\n",
          id.c_str(), kind, P, T, N, total_blocks, g_pages.all.size(), g_up.all.size(), m.align, m.owned, m.disjoint, m.book, m.stable,
          m.dtor, m.pages, m.up, m.zero, m.contains, m.reuse, g_detail.c_str());
